@@ -2,6 +2,7 @@
 from __future__ import annotations
 
 import itertools
+import math
 from fractions import Fraction
 
 import numpy as np
@@ -16,7 +17,16 @@ RULE = (
     "(FilterGT/GE/LT/LE/EQ/NE, FilterIn/NotIn, function-based Filter with named element-wise predicates, "
     "FilterNonDominated) + an ORDERED condition dict over present AND absent criteria written in a random key order "
     "(thresholds drawn from the column's own values, so ties with the threshold are hit exactly) + "
-    "ignore_missing_criteria in {False, True} + strict in {False, True}. Thorough tier adds the exhaustive enumeration: "
+    "ignore_missing_criteria in {False, True} + strict in {False, True}. Two further families in every tier: (a) FilterIn / "
+    "FilterNotIn with LONG condition sets (13-40 values, with and without values repeated inside the set, in random order) on "
+    "float-valued criteria (k/8 grid and arbitrary doubles, 3-12 alternatives) where several alternatives share a value that is in "
+    "the set and several share a value that is not (the set mixes the column's own values with near misses and foreign values), "
+    "alone and together with short sets / absent criteria, both classes on the same conditions; (b) FilterNonDominated, both strict "
+    "settings, on NEAR-TIE matrices: per criterion a small pool of values that differ by a tiny non-zero amount (250000 vs 250001, "
+    "0.1+0.2 vs 0.3, 1e-9 vs 3e-9, relative 2^-24, one ulp; also whole-number matrices of dtype int) plus forced pairs whose "
+    "dominance is decided by such a difference alone (one alternative worse only by the tiny amount; better only by the tiny "
+    "amount and clearly worse elsewhere; worse by the tiny amount on every criterion) - exact cases for the rational oracle. "
+    "Thorough tier adds the exhaustive enumeration: "
     "every matrix with <= 3 alternatives x <= 2 criteria over {0,1,2}, every non-empty condition set over {C0, C1, absent ZZ} "
     "with thresholds in {1,2} in every key order, both ignore settings, all nine by-criteria classes; and every such matrix "
     "x every objective vector x both strict settings for FilterNonDominated. "
@@ -113,6 +123,183 @@ def _random_case(rng):
     return {"dm": dm, "runs": runs}
 
 
+# ---- long condition sets (FilterIn / FilterNotIn)
+
+
+def _long_set(rng, col, repeats):
+    """13..40 values: some of the column's own values (so that a value shared by several alternatives is in the set, and another
+    shared value is not), near misses of the column's values and foreign values; optionally with values repeated inside the set"""
+    distinct = sorted(set(col))
+    shared = [v for v in distinct if col.count(v) > 1]
+    size = rng.randint(13, 40)
+    inside = set(rng.sample(distinct, rng.randint(0, len(distinct))))
+    if len(shared) >= 2:  # at least one shared value in the set and one shared value outside it
+        a, b = rng.sample(shared, 2)
+        inside.add(a)
+        inside.discard(b)
+    elif shared and rng.random() < 0.7:
+        inside.discard(shared[0])
+    elif shared:
+        inside.add(shared[0])
+    outside = set(distinct) - inside
+    vals = list(inside)
+    span = max(abs(x) for x in col) or 1.0
+    guard = 0
+    while len(set(vals)) < (size if not repeats else max(7, size - rng.randint(2, size // 2))) and guard < 1000:
+        guard += 1
+        r = rng.random()
+        if r < 0.35:
+            x = rng.choice(col) + rng.choice([-1, 1]) * rng.randint(1, 6) / 8  # a neighbour on the k/8 grid
+        elif r < 0.55:
+            x = rng.choice(col) * (1 + rng.choice([-1, 1]) * 2.0 ** -rng.randint(20, 50))  # a near miss
+        elif r < 0.8:
+            x = rng.randint(-16, 80) / 8
+        else:
+            x = rng.uniform(-span, 2 * span)
+        if x in outside or x in vals:
+            continue
+        vals.append(int(x) if float(x).is_integer() and rng.random() < 0.2 else x)
+    while len(vals) < size:  # values repeated inside the condition set
+        vals.append(rng.choice(vals))
+    rng.shuffle(vals)
+    return vals
+
+
+def _long_set_case(rng):
+    fam = rng.choice(["dyadic", "float", "float"])
+    dm = G.dm_case(rng, family=fam, positive=rng.random() < 0.6, ties=rng.choice([0.3, 0.5, 0.8]), dups=0.15, max_m=12, max_n=6, min_m=3)
+    if dm["int_matrix"]:
+        # float-valued criteria: keep the grid but leave the whole numbers (dtype float64, at least one non-integer cell per column)
+        dm["int_matrix"] = False
+        dm["matrix"] = [[x / 8 for x in row] for row in dm["matrix"]]
+    crits = dm["criteria"]
+    n = len(crits)
+    keys = rng.sample(crits, min(n, rng.choice([1, 1, 2, 2, 3]))) + \
+        rng.sample([a for a in ABSENT_POOL if a not in crits], rng.choice([0, 0, 0, 1]))
+    rng.shuffle(keys)
+    conds = []
+    n_long = 0
+    for c in keys:
+        if c in crits:
+            col = [row[crits.index(c)] for row in dm["matrix"]]
+            if n_long == 0 or rng.random() < 0.6:
+                conds.append([c, _long_set(rng, col, repeats=rng.random() < 0.5)])
+                n_long += 1
+            else:
+                conds.append([c, [_threshold(rng, col) for _ in range(rng.randint(1, 4))]])
+        else:
+            conds.append([c, [rng.randint(0, 40) / 8 for _ in range(rng.choice([1, 3, 17]))]])
+    cls = rng.choice(SETS)
+    ig = rng.random() < 0.5 or any(c not in crits for c in keys) and rng.random() < 0.7
+    runs = [{"cls": cls, "conds": conds, "ignore": ig}]
+    r = rng.random()
+    if r < 0.5:
+        runs.append({"cls": "NotIn" if cls == "In" else "In", "conds": conds, "ignore": ig})
+    elif r < 0.7 and len(conds) > 1:
+        other = list(conds)
+        rng.shuffle(other)
+        runs.append({"cls": cls, "conds": other, "ignore": ig})
+    return {"dm": dm, "runs": runs}
+
+
+# ---- near ties (FilterNonDominated): values that differ by a tiny, non-zero amount
+
+
+def _near_pool(rng, kind):
+    """a few values of one criterion, pairwise equal or different by a tiny amount, plus (sometimes) one clearly different value"""
+    if kind == "big":
+        c = float(rng.choice([250000, 1000000, 123456, 2 ** 20, 999999, 87654321]) + rng.randint(0, 3))
+        pool = [c, c + 1, c - 1, c + 2]
+        far = c + rng.choice([-1, 1]) * rng.choice([1000, 50000])
+    elif kind == "tiny":
+        c = rng.randint(3, 9) * 1e-9
+        pool = [c, c + 2e-9, c - 2e-9, c + 1e-9]
+        far = c * 1000
+    elif kind == "decimal":
+        a, b = rng.randint(1, 9), rng.randint(1, 9)
+        pool = [a / 10 + b / 10, (a + b) / 10, (a / 10) * ((a + b) / a), 0.1 * (a + b)]
+        far = (a + b) / 10 + rng.choice([-0.05, 0.25])
+    elif kind == "rel":
+        c = math.ldexp(rng.uniform(0.5, 1.0), rng.randint(-6, 18))
+        e = 2.0 ** -24
+        pool = [c, c * (1 + e), c * (1 - e), c * (1 + 3 * e)]
+        far = c * rng.choice([0.5, 1.5])
+    elif kind == "ulp":
+        c = math.ldexp(rng.uniform(0.5, 1.0), rng.randint(-6, 9))
+        pool = [c, math.nextafter(c, math.inf), math.nextafter(c, -math.inf), math.nextafter(math.nextafter(c, math.inf), math.inf)]
+        far = c + rng.choice([-1, 1]) * c / 4
+    else:  # plain k/8 grid
+        c = rng.randint(8, 40) / 8
+        pool = [c, c + 0.125, c - 0.125, c + 0.25]
+        far = c + rng.choice([-2, 2])
+    pool = pool[: rng.randint(2, 4)]
+    if rng.random() < 0.4:
+        pool.append(far)
+    return pool
+
+
+NEAR_KINDS = ["big", "tiny", "decimal", "rel", "ulp", "plain"]
+
+
+def _near_tie_case(rng):
+    m = rng.randint(2, 10)
+    n = rng.randint(1, 5)
+    objs = G.objectives(rng, n)
+    one_kind = rng.choice(NEAR_KINDS[:5]) if rng.random() < 0.5 else None
+    kinds = [one_kind or rng.choice(NEAR_KINDS) for _ in range(n)]
+    pools = [_near_pool(rng, k) for k in kinds]
+    rows = [[rng.choice(pools[j]) for j in range(n)] for _ in range(m)]
+
+    def worse(j, x, tiny=True):
+        """the nearest other pool value that is worse than x on criterion j (None if x is already the worst)"""
+        cand = [v for v in pools[j] if (v < x if objs[j] == 1 else v > x)]
+        if not cand:
+            return None
+        return (max(cand) if objs[j] == 1 else min(cand)) if tiny else (min(cand) if objs[j] == 1 else max(cand))
+
+    # forced pairs whose dominance is decided by a tiny difference alone
+    for i in range(1, m):
+        r = rng.random()
+        if r < 0.45:
+            k = rng.randrange(i)
+            rows[i] = list(rows[k])
+            how = rng.choice(["one-worse", "all-worse", "one-better-rest-worse"])
+            js = list(range(n))
+            rng.shuffle(js)
+            if how == "one-worse":
+                for j in js[: rng.randint(1, max(1, n - 1))]:
+                    w = worse(j, rows[i][j])
+                    if w is not None:
+                        rows[i][j] = w
+            elif how == "all-worse":
+                for j in js:
+                    w = worse(j, rows[i][j])
+                    if w is not None:
+                        rows[i][j] = w
+            else:
+                # row k made worse by the tiny step on one criterion: row i is then better than row k only by that step ...
+                j0 = js[0]
+                w = worse(j0, rows[k][j0])
+                if w is not None and rng.random() < 0.7:
+                    rows[k][j0] = w
+                else:
+                    w2 = worse(j0, rows[i][j0])
+                    if w2 is not None:
+                        rows[i][j0] = w2
+                # ... and worse on the others
+                for j in js[1:]:
+                    w = worse(j, rows[i][j], tiny=rng.random() < 0.5)
+                    if w is not None and rng.random() < 0.8:
+                        rows[i][j] = w
+    whole = all(float(x).is_integer() for row in rows for x in row)
+    dm = {
+        "matrix": rows, "int_matrix": whole and rng.random() < 0.5, "objectives": objs, "weights": G.weights(rng, n, "dyadic"),
+        "alternatives": G.labels(rng, G.LABEL_POOL_ALT, m), "criteria": G.labels(rng, G.LABEL_POOL_CRIT, n),
+        "family": "near-tie:" + (one_kind or "mixed"),
+    }
+    return {"dm": dm, "runs": [{"cls": "NonDominated", "strict": s} for s in rng.sample([False, True], 2)]}
+
+
 def _malformed_cases(rng):
     dm = G.dm_case(rng, family="dyadic", max_m=4, max_n=3)
     c0 = dm["criteria"][0]
@@ -179,6 +366,10 @@ def gen(ctx):
         cases.append(_random_case(rng))
     for _ in range(ctx.n(3, 20)):
         cases.extend(_malformed_cases(rng))
+    for _ in range(ctx.n(250, 2000)):
+        cases.append(_long_set_case(rng))
+    for _ in range(ctx.n(300, 2500)):
+        cases.append(_near_tie_case(rng))
     if ctx.thorough:
         cases.extend(_exhaustive())
     return cases
@@ -186,7 +377,7 @@ def gen(ctx):
 
 def search_gen(ctx):
     rng = ctx.rng
-    return [_random_case(rng) for _ in range(3000)]
+    return [_random_case(rng) for _ in range(3000)] + [_long_set_case(rng) for _ in range(600)] + [_near_tie_case(rng) for _ in range(600)]
 
 
 # --------------------------------------------------------------------------- implementation side
@@ -467,7 +658,23 @@ def tags(case, obs):
             t.append("some-survive")
         if run["cls"] == "NonDominated":
             t.append("strict" if run["strict"] else "non-strict")
+            cols = list(zip(*dm["matrix"]))
+            if any(x != y and abs(x - y) <= 1e-5 * max(abs(x), abs(y)) for col in cols for x in set(col) for y in set(col)):
+                t.append("nd:two-alternatives-differ-by-a-tiny-amount")
             continue
+        if run["cls"] in SETS:
+            for c, v in run["conds"]:
+                if len(v) >= 13:
+                    t.append("set:13+values")
+                    if len(set(v)) < len(v):
+                        t.append("set:13+values-with-repeats")
+                    if c in crits:
+                        col = [row[crits.index(c)] for row in dm["matrix"]]
+                        sh = {x for x in col if col.count(x) > 1}
+                        if any(x in v for x in sh):
+                            t.append("set:13+values,shared-value-in-set")
+                        if any(x not in v for x in sh):
+                            t.append("set:13+values,shared-value-not-in-set")
         t.append("ignore" if run["ignore"] else "no-ignore")
         present = [c for c, _ in run["conds"] if c in crits]
         if len(present) < len(run["conds"]):
